@@ -3301,11 +3301,10 @@ impl Zeroconf {
                 }
 
                 let query_name = q_name.to_lowercase();
-                let service_opt = self
-                    .my_services
-                    .iter()
-                    .find(|(k, _v)| dns_registry.resolve_name(k.as_str()) == query_name)
-                    .map(|(_, v)| v);
+                // `name_changes` is keyed by the name as registered (not lower-cased).
+                let service_opt = self.my_services.values().find(|v| {
+                    dns_registry.resolve_name(v.get_fullname()).to_lowercase() == query_name
+                });
 
                 let Some(service) = service_opt else {
                     continue;
@@ -3327,6 +3326,18 @@ impl Zeroconf {
                     );
                     continue;
                 }
+
+                // After a host rename the SRV target and the address owner are the new name.
+                let hostname = dns_registry.resolve_name(service.get_hostname());
+                let renamed_host;
+                let service = if hostname != service.get_hostname() {
+                    let mut renamed = service.clone();
+                    renamed._set_hostname(hostname.to_string());
+                    renamed_host = renamed;
+                    &renamed_host
+                } else {
+                    service
+                };
 
                 add_answer_of_service(
                     &mut out,
